@@ -15,10 +15,12 @@ import (
 
 	"github.com/go-critic/go-critic/checkers/rulesdata"
 	"github.com/go-critic/go-critic/linter"
+	"github.com/quasilyte/go-ruleguard/ruleguard/ir"
 
 	"verifharness/internal/common"
 	"verifharness/internal/coqfmt"
 	"verifharness/internal/exprgen"
+	"verifharness/internal/valdiff"
 )
 
 // rule groups of checkers/rules/rules.go whose diagnostics promise an equivalent rewrite and that
@@ -167,6 +169,8 @@ var (
 	useInsteadRe = regexp.MustCompile("^use (.*) instead of (.*)$")
 	yodaRe       = regexp.MustCompile("^consider to change order in expression to (.*)$")
 	swapRe       = regexp.MustCompile("^can re-write as `(.*)`$")
+	swapStmtsRe  = regexp.MustCompile(`tmp := [^;]+; [^;]+; [^;]+ = tmp`)
+	deferRe      = regexp.MustCompile("^can rewrite as `(.*)`$")
 )
 
 func fromQuickFix(l *exprgen.Linted, w linter.Warning, _ string) (string, string, bool) {
@@ -237,6 +241,34 @@ func fmtClass(orig, repl string) string {
 	return classPurity(orig, "")
 }
 
+// deferUnlambda: `defer func() { f(args) }()` => `defer f(args)` evaluates f when the defer statement runs
+var deferSpecs = []ruleSpec{
+	{checker: "deferUnlambda", kind: "stmts",
+		gen: func(p func(...string) string) string {
+			switch p("var", "var", "pkgfn", "late") {
+			case "pkgfn":
+				return "func() { defer func() { setG() }(); gxs = nil }(); c = len(gxs)"
+			case "late":
+				return "cl := func() { c = 1 }; func() { defer func() { cl() }(); cl = func() { c = 7 } }()"
+			}
+			return "var cl func(); func() { defer func() { cl() }(); cl = func() { c = 7 } }()"
+		},
+		rewrite: func(l *exprgen.Linted, w linter.Warning, body string) (string, string, bool) {
+			m := deferRe.FindStringSubmatch(w.Text)
+			orig := regexp.MustCompile(`defer func\(\) \{ [^}]*\}\(\)`).FindString(body)
+			if m == nil || orig == "" {
+				return "", "", false
+			}
+			return orig, m[1], true
+		},
+		class: func(orig, _ string) string {
+			if strings.Contains(orig, "cl = func()") {
+				return "func-variable-evaluated-at-defer"
+			}
+			return "unclassified"
+		}},
+}
+
 // rules rewriting fmt calls (oracle only): the result depends on the operand's method set
 var fmtSpecs = []ruleSpec{
 	{checker: "redundantSprint", kind: "expr", weight: 4,
@@ -300,7 +332,11 @@ var handSpecs = []ruleSpec{
 				}
 				return ""
 			}
-			switch p("pkg", "sel", "mv", "mp", "fv", "fp", "gv", "lv", "lv0") {
+			switch p("pkg", "sel", "mv", "mp", "fv", "fp", "gv", "lv", "lv0", "var", "var2") {
+			case "var": // the variadic argument is not the parameter itself
+				return "f := func(ys ...int) int { return vsum(rev(ys)...) }; c = f(a, b, 7)"
+			case "var2":
+				return "f := func(ys ...int) int { return vsum(ys...) }; c = f(a, b, 7)"
 			case "pkg":
 				return "f := func(x int) int { return hi(x) }; c = f(a) + f(b)"
 			case "sel":
@@ -331,6 +367,8 @@ var handSpecs = []ruleSpec{
 				return "func-variable-callee"
 			case strings.Contains(orig, "ps.add"):
 				return "pointer-method-value"
+			case strings.Contains(orig, "(ys)..."):
+				return "variadic-argument-not-parameter"
 			}
 			return classPurity(orig, "")
 		}},
@@ -478,20 +516,26 @@ var ruleSpecs = append([]ruleSpec{
 			if (x == "s") != (y == "t") {
 				x, y = "a", "b"
 			}
+			if p("v", "v", "v", "list") == "list" {
+				// an operand reached THROUGH the other one: a linked list step
+				return "pp := &node{a, &node{b, nil}}; tmp := pp; pp = pp.next; pp.next = tmp; c = pp.v; k = pp.next == nil"
+			}
 			return "tmp := " + y + "; " + y + " = " + x + "; " + x + " = tmp"
 		},
 		rewrite: func(l *exprgen.Linted, w linter.Warning, body string) (string, string, bool) {
 			m := swapRe.FindStringSubmatch(w.Text)
-			if m == nil {
+			orig := swapStmtsRe.FindString(body)
+			if m == nil || orig == "" {
 				return "", "", false
 			}
-			return body, m[1], true
+			return orig, m[1], true
 		},
 		class: func(orig, _ string) string {
 			if impure(orig) {
 				return "impure-operand"
 			}
-			if strings.Contains(orig, "tmp := b; b = xs[b]") {
+			if strings.Contains(orig, "tmp := b; b = xs[b]") || strings.Contains(orig, "pp = pp.next") {
+				// the operand $x is reached through $y (index or pointer step): same cause
 				return "index-depends-on-swapped-var"
 			}
 			return "unclassified"
@@ -506,7 +550,7 @@ var ruleSpecs = append([]ruleSpec{
 			}
 			return body, strings.Replace(body, "switch true {", "switch {", 1), true
 		}, class: classPurity},
-}, append(handSpecs, fmtSpecs...)...)
+}, append(append(handSpecs, fmtSpecs...), deferSpecs...)...)
 
 const rulesLintHeader = "package p\n\nimport (\n\t\"bytes\"\n\t\"fmt\"\n\t\"strings\"\n\t\"time\"\n)\n\nvar _ = bytes.Equal\nvar _ = strings.Index\nvar _ time.Time\nvar _ = fmt.Sprint\n"
 
@@ -878,4 +922,143 @@ func runUnlambdaTie(meta *common.Meta, outDir string) {
 	meta.CaseFiles = append(meta.CaseFiles, "cases_c10_unlambda.v")
 	meta.Evaluations += len(bodies)
 	meta.Distribution["unlambda_callee_forms_compared"] = len(bodies)
+}
+
+// ---------------------------------------------------------------- pattern-driven value-domain differential
+
+// runSynthDiff: every pattern (also patterns a change ADDS to a group) of the rewrite groups, as executed,
+// is instantiated by the synthesiser; original and suggestion are evaluated over value domains by parameter
+// type (non-ASCII bytes, invalid UTF-8, surrogates, invalid runes, NaN, nil).
+func runSynthDiff(meta *common.Meta, outDir string) {
+	groups := map[string]bool{"redundantSprint": true, "equalFold": false}
+	for _, g := range coveredGroups {
+		groups[g] = true
+	}
+	delete(groups, "offBy1") // its suggestion is a bug fix, not an equivalence claim
+	cases, hits, misses := valdiff.Collect(
+		func(g string, r ir.Rule) bool { return groups[g] && r.SuggestTemplate != "" }, 1500,
+		func(group string, w linter.Warning, l *exprgen.Linted) (token.Pos, token.Pos, string, string, bool) {
+			if !w.HasQuickFix() {
+				return 0, 0, "", "", false
+			}
+			return w.Suggestion.From, w.Suggestion.To, string(w.Suggestion.Replacement), "", true
+		})
+	meta.Distribution["synth_rewrite_patterns_hit"] = hits
+	meta.Distribution["synth_rewrite_patterns_missed"] = misses
+	meta.Distribution["synth_rewrite_cases"] = len(cases)
+	mm, evals, err := valdiff.Run(filepath.Join(outDir, "valdiff_rules"), cases)
+	if err != nil {
+		meta.Notes = append(meta.Notes, err.Error())
+		meta.TieBroken = append(meta.TieBroken, "value-domain differential program did not build (see notes)")
+		return
+	}
+	meta.Evaluations += evals
+	meta.Distribution["synth_rewrite_evaluations"] = evals
+	specOf := map[string]ruleSpec{}
+	for _, sp := range ruleSpecs {
+		specOf[sp.checker] = sp
+	}
+	for _, m := range mm {
+		class := valdiff.Class(m.Input)
+		if sp, ok := specOf[m.Case.Group]; ok && sp.class != nil {
+			if c := sp.class(m.Case.Expr, m.Case.New); c != "unclassified" && c != "impure-operand" {
+				class = c
+			}
+		}
+		if m.Case.Group == "redundantSprint" && class == "nil-operand" {
+			class = "nil-pointer-stringer"
+		}
+		meta.Fail("C10/"+m.Case.Group+"/"+class,
+			fmt.Sprintf("%s: `%s` => `%s` (pattern %s) changes behaviour on %s: original %s, suggestion %s", m.Case.Group, m.Case.Expr, m.Case.New, m.Case.Pattern, m.Input, m.Orig, m.New),
+			map[string]interface{}{"pattern": m.Case.Pattern, "original": m.Case.Expr, "suggestion": m.Case.New, "arguments": m.Input, "original_result": m.Orig, "suggested_result": m.New})
+	}
+}
+
+// ---------------------------------------------------------------- boolExprSimplify on type parameters
+
+// runGenericBool: boolean expressions over operands whose type is a type parameter (constraints with float,
+// integer, mixed and approximate terms); oracle only (the model has no type parameters): the generic
+// function with the original and with the suggested expression is instantiated and run on the grid.
+func runGenericBool(meta *common.Meta, seed int64, outDir string) {
+	type gcase struct {
+		constraint, inst, args, expr string
+	}
+	exprs := []string{"!(x < y)", "!(x >= y)", "!(x == y)", "x+1 > y", "x-1 >= y", "!(x <= y) && !(y < x)", "x > y || x == y", "!!(x < y)"}
+	kinds := []struct{ constraint, inst, args string }{
+		{"float32 | float64", "float64", "p, q"},
+		{"~float64", "myF", "mf, mg"},
+		{"int | float64", "float64", "p, q"},
+		{"int | int64", "int", "a, b"},
+		{"~int | ~uint", "int", "a, b"},
+		{"~string", "string", "s, t"},
+	}
+	var cases []gcase
+	var src strings.Builder
+	src.WriteString("package p\n" + exprgen.LintPreamble)
+	for _, k := range kinds {
+		for _, e := range exprs {
+			if strings.Contains(k.constraint, "string") && strings.ContainsAny(e, "+-") && strings.Contains(e, "1") {
+				continue
+			}
+			fmt.Fprintf(&src, "func gb%d[T %s](x, y T) bool { return %s }\n", len(cases), k.constraint, e)
+			cases = append(cases, gcase{k.constraint, k.inst, k.args, e})
+		}
+	}
+	l, err := exprgen.Load("generic.go", src.String())
+	if err != nil {
+		panic(err)
+	}
+	ws, err := l.Run("boolExprSimplify")
+	if err != nil {
+		panic(err)
+	}
+	rg := common.NewRand(seed, "c10-generic-grid")
+	var dcs []*exprgen.DiffCase
+	for _, w := range ws {
+		fn := l.FuncOf(w.Pos)
+		var idx int
+		if _, err := fmt.Sscanf(fn, "gb%d", &idx); err != nil {
+			continue
+		}
+		m := simplifyRe.FindStringSubmatch(w.Text)
+		if m == nil {
+			continue
+		}
+		c := cases[idx]
+		id := len(dcs)
+		decl := func(name, body string) string {
+			return fmt.Sprintf("func %s[T %s](x, y T) bool { return %s }", name, c.constraint, body)
+		}
+		whole := func(sub string) string { return strings.Replace(c.expr, m[1], sub, 1) }
+		if !strings.Contains(strings.ReplaceAll(c.expr, " ", ""), strings.ReplaceAll(m[1], " ", "")) {
+			continue
+		}
+		origBody, newBody := c.expr, m[2]
+		if strings.ReplaceAll(c.expr, " ", "") != strings.ReplaceAll(m[1], " ", "") {
+			newBody = whole(m[2])
+		}
+		dcs = append(dcs, &exprgen.DiffCase{ID: id, Kind: "expr",
+			Decls: decl(fmt.Sprintf("gbo%d", id), origBody) + "\n" + decl(fmt.Sprintf("gbn%d", id), newBody),
+			Orig:  fmt.Sprintf("gbo%d[%s](%s)", id, c.inst, c.args), New: fmt.Sprintf("gbn%d[%s](%s)", id, c.inst, c.args),
+			Inputs: exprgen.Grid(rg, c.args+" "+c.expr, 80), Tag: c})
+	}
+	meta.Distribution["generic_bool_functions"] = len(cases)
+	meta.Distribution["generic_bool_flagged"] = len(dcs)
+	mm, evals, err := exprgen.RunDiff(filepath.Join(outDir, "diff_generic"), dcs)
+	if err != nil {
+		meta.Notes = append(meta.Notes, "generic differential program did not build: "+err.Error())
+		meta.TieBroken = append(meta.TieBroken, "generic differential program did not build (see notes)")
+		return
+	}
+	meta.Evaluations += evals
+	for _, m := range mm {
+		c := m.Case.Tag.(gcase)
+		class := "type-parameter-operand"
+		if strings.Contains(c.constraint, "float") {
+			class = "float-type-parameter"
+		}
+		meta.Fail("C10/boolExprSimplify/"+class,
+			fmt.Sprintf("func [T %s](x, y T): `%s` is simplified, instantiated with %s the result changes: original %s, suggestion %s", c.constraint, c.expr, c.inst, m.Orig, m.New),
+			map[string]interface{}{"constraint": c.constraint, "expr": c.expr, "instantiation": c.inst, "input": m.Input, "original_result": m.Orig, "suggested_result": m.New})
+	}
 }
